@@ -24,7 +24,8 @@ def _rmin(M0, M1, lo, hi):
   return best
 
 
-def ridge_interval(S, eps, relative, method, lam_hat=None, retries=None):
+def ridge_interval(S, eps, relative, method, lam_hat=None, retries=None,
+                   window=1e-6):
   """Admissible [d_lo, d_hi] for the ridge the routine may have used."""
   lam_max = float(np.max(np.linalg.eigvalsh(S))) if S.size else 0.0
   lam_max = max(lam_max, 0.0)
@@ -35,10 +36,10 @@ def ridge_interval(S, eps, relative, method, lam_hat=None, retries=None):
       mult = 10.0 ** (int(round(float(retries))) - 1)
     if not relative:
       d = eps * mult
-      return d * (1 - 1e-6), d * (1 + 1e-6), lam_max
+      return d * (1 - window), d * (1 + window), lam_max
     if lam_hat is not None and np.isfinite(lam_hat):
       d = eps * max(float(lam_hat), floor) * mult
-      return d * (1 - 1e-6), d * (1 + 1e-6), lam_max
+      return d * (1 - window), d * (1 + window), lam_max
     return eps * floor * mult, eps * max(lam_max, floor) * mult * (1 + 1e-6), \
         lam_max
   # eigh / low-rank: lambda-hat is never reported
@@ -50,7 +51,7 @@ def ridge_interval(S, eps, relative, method, lam_hat=None, retries=None):
 
 
 def check_root(S, X, p, err, eps, relative, method, lam_hat=None,
-               retries=None, u=U32, k=K, u_compute=None):
+               retries=None, u=U32, k=K, u_compute=None, lam_window=1e-6):
   """Returns (status, ratio, detail). status in ok|vacuous|violation."""
   S = np.asarray(S, np.float64)
   X = np.asarray(X, np.float64)
@@ -62,7 +63,8 @@ def check_root(S, X, p, err, eps, relative, method, lam_hat=None,
   S = 0.5 * (S + S.T)
   xn = float(np.max(np.abs(X))) if X.size else 0.0
   asym = float(np.max(np.abs(X - X.T))) if X.size else 0.0
-  lo, hi, lam_max = ridge_interval(S, eps, relative, method, lam_hat, retries)
+  lo, hi, lam_max = ridge_interval(S, eps, relative, method, lam_hat, retries,
+                                   window=lam_window)
   w = np.linalg.eigvalsh(S)
   lam_min = float(w[0])
   den = lam_min + lo
@@ -77,8 +79,9 @@ def check_root(S, X, p, err, eps, relative, method, lam_hat=None,
   # symmetric up to rounding: one ulp of the stored dtype plus what up to 100
   # coupled-Newton products accumulate in the compute dtype
   uc = u if u_compute is None else u_compute
-  sym_tol = (k * u + 100.0 * n * uc * max(1.0, kappa ** (1.0 / p))) * \
-      max(xn, 1e-300)
+  # (measured on 295 float64 Newton roots: asymmetry <= 0.5 u kappa ||X||)
+  sym_tol = (k * u + 10.0 * uc * max(1.0, kappa) +
+             100.0 * n * uc * max(1.0, kappa ** (1.0 / p))) * max(xn, 1e-300)
   if asym > sym_tol:
     return 'violation', asym / sym_tol, 'asymmetric'
   Xp = np.linalg.matrix_power(X, int(p))
@@ -87,7 +90,8 @@ def check_root(S, X, p, err, eps, relative, method, lam_hat=None,
   if not (np.all(np.isfinite(M0)) and np.all(np.isfinite(M1))):
     return 'vacuous', None, 'nonfinite_intermediate'
   rmin, dbest = _rmin(M0, M1, lo, hi)
-  bound = float(err) + slack
+  # the reported error is a float32 number
+  bound = float(err) * (1.0 + 2.0 ** -22) + slack
   ratio = (rmin - float(err)) / (n * p * kappa * u)
   if rmin > bound:
     return 'violation', ratio, f'residual rmin={rmin:.3e} err={err:.3e} ' \
